@@ -18,16 +18,17 @@ LEAN_MODULES = ["Proofs.C04.Deribit"]
 DRIVERS = ["driver_deribit"]
 RULE = ("[deribit] one bucket per (operation, intended rejection cause, exception class, state class: fresh book / after a prefix of accepted trades / "
         "closed bar); causes: market closed, unknown instrument, instrument not open, below min amount, no order at limit price (token and usd), "
-        "insufficient depth (market / limit / under a mark cap), insufficient cash, not held, exceeds holding, zero or negative cap multiple, "
+        "insufficient depth (market / limit / under a mark cap), insufficient cash (plain, and after matching under a mark cap: market and limit), "
+        "not held / exceeds holding (plain and with a mark floor), zero or negative cap multiple, "
         "wallet short, token missing from wallet, negative amount, cash short on withdraw")
 TRUSTED = ["float arithmetic of order-book sizes reproduced with Lean Float in the driver; the theorems hold for every arithmetic context"]
-ASSUMPTIONS = ["instrument names unique, price levels of a side distinct, sizes finite and non-negative"]
+ASSUMPTIONS = ["instrument names unique, sizes finite and non-negative (30 % of the sides are unsorted rows with repeated prices)"]
 
 CAUSES_TRADE = ["closed", "unknown", "not-open", "below-min", "no-order-tok", "no-order-usd", "depth-market", "depth-limit", "depth-cap",
                 "cap-zero", "cap-negative"]
 CAUSES = {
-    "buy": CAUSES_TRADE + ["cash"],
-    "sell": CAUSES_TRADE + ["not-held", "exceeds-holding"],
+    "buy": CAUSES_TRADE + ["cash", "cash-cap", "cash-limit-cap"],
+    "sell": CAUSES_TRADE + ["not-held", "exceeds-holding", "not-held-cap", "exceeds-holding-cap"],
     "deposit": ["wallet-short", "wallet-missing", "negative"],
     "withdraw": ["cash-short", "negative"],
 }
@@ -50,7 +51,7 @@ def snapshot(rig: L.Rig):
 
 def base_state(rng, token):
     now = 60 * rng.randint(1, 200)
-    instrs = L.gen_book(rng, token, now, crossed=True, n=rng.choice((2, 3, 4)))
+    instrs = L.gen_book(rng, token, now, crossed=True, n=rng.choice((2, 3, 4)), rough=0.3)
     # make sure there is an open instrument with depth on both sides and one closed instrument
     good = None
     for i in instrs:
@@ -88,7 +89,8 @@ def build_case(rng, opname, cause):
             spec["prefix"].append({"type": "sell", "name": good["name"], "amount": step})
             sclass = "after-trades"
     name = good["name"]
-    levels = good["asks"] if opname == "buy" else good["bids"]
+    # best price first, one level per price: what the order is matched against (the rows themselves may be unsorted / repeat a price)
+    levels = L.norm_levels(good["asks"] if opname == "buy" else good["bids"], opname)
     op = {"type": opname}
     if opname in ("buy", "sell"):
         op.update({"name": name, "amount": step * rng.randint(1, 2)})
@@ -135,11 +137,30 @@ def build_case(rng, opname, cause):
             spec["cash"] = str(Decimal(str(levels[0][0])) * Decimal(op["amount"]) * Decimal("0.9"))
             spec["prefix"] = []
             sclass = "fresh"
-        elif cause == "not-held":
+        elif cause in ("cash-cap", "cash-limit-cap"):
+            # rejected AFTER the matching: the order passes check_transaction under a mark cap, the levels the cap allows are walked
+            # (on copies), then the account cannot pay -- the visible book must still be what it was
+            keep = rng.randint(1, len(levels))
+            edge = Decimal(str(levels[keep - 1][0])) / Decimal(str(good["mark"]))
+            op["mult"] = rng.choice((edge * Decimal("1.00001"), Decimal(1000), 50.0, 10 ** 6))
+            allowed = levels[:keep] if isinstance(op["mult"], Decimal) and op["mult"] < 1000 else levels
+            depth = sum((l[1] for l in allowed), Decimal(0))
+            if cause == "cash-limit-cap":
+                op["priceTok"] = allowed[0][0]
+                depth = allowed[0][1]
+            op["amount"] = max(step, (depth * Decimal(rng.randint(30, 100)) / 100).quantize(step))
+            spec["cash"] = str(Decimal(str(allowed[0][0])) * op["amount"] * Decimal(rng.choice(("0.9", "0.5", "0.999", "0"))))
+            spec["prefix"] = []
+            sclass = "fresh"
+        elif cause in ("not-held", "not-held-cap"):
             spec["positions"] = []
             spec["prefix"] = []
             sclass = "fresh"
-        elif cause == "exceeds-holding":
+            if cause == "not-held-cap":
+                op["mult"] = rng.choice((Decimal(1000), 50.0, 10 ** 6))
+        elif cause in ("exceeds-holding", "exceeds-holding-cap"):
+            if cause == "exceeds-holding-cap":
+                op["mult"] = rng.choice((Decimal(1000), 50.0, 10 ** 6))
             spec["prefix"] = []
             sclass = "fresh"
             bump = rng.choice((step, step * 10))
